@@ -11,3 +11,4 @@ import TinsModel.Props.C11
 #print axioms Tins.Props.C11.present_is_domain
 #print axioms Tins.Props.C11.trailer_size_spec
 #print axioms Tins.Props.C11.history_observations
+#print axioms Tins.Props.C11.serialize_reparse
